@@ -158,6 +158,7 @@ func (tmg *TCPMuxGroup) worker() {
 			tmg.acceptCh <- c
 		})
 		if err != nil {
+			c.Close()
 			return
 		}
 	}
